@@ -8,6 +8,7 @@ mod geom;
 mod hilbert;
 mod ids;
 mod purity;
+mod replay;
 mod total;
 mod util;
 
@@ -59,6 +60,10 @@ fn main() {
         "c13child" => {
             util::quiet_panics();
             purity::child_concurrent(args[2].parse().unwrap(), args[3].parse().unwrap());
+        }
+        "replay" => {
+            util::quiet_panics();
+            replay::run(&args[2], &args[3]);
         }
         "call" => {
             util::quiet_panics();
